@@ -15,27 +15,30 @@ Ltac Zify.zify_post_hook ::= Z.div_mod_to_equations.
 (** children contributed to the enclosing scope after the first pass / fuel of the pass *)
 Fixpoint clen (l : list item) : nat :=
   match l with [] => O | IName _ :: t => S (S (clen t)) | IBlk _ _ _ _ _ :: t => S (clen t)
-               | ILeaf _ _ _ ta :: t => S (length ta + clen t) end.
+               | ILeaf _ _ _ ta :: t => S (length ta + clen t) | IPkg _ _ _ _ :: t => S (S (clen t)) end.
 
 Fixpoint cfuel_item (it : item) : nat :=
   match it with IName _ => 2%nat
               | IBlk bk _ _ fa body => (6 + length (bfx bk fa) + fold_right (fun x n => (cfuel_item x + n)%nat) O body)%nat
-              | ILeaf lk _ fa ta => (8 + length (lfx lk fa) + 2 * length ta)%nat end.
+              | ILeaf lk _ fa ta => (8 + length (lfx lk fa) + 2 * length ta)%nat
+              | IPkg _ _ _ elems => (16 + 3 * length elems)%nat end.
 Definition cfuel (l : list item) : nat := fold_right (fun x n => (cfuel_item x + n)%nat) O l.
 Lemma cfuel_cons x t : cfuel (x :: t) = (cfuel_item x + cfuel t)%nat. Proof. reflexivity. Qed.
 Lemma cfuel_blk bk k seg fa body : cfuel_item (IBlk bk k seg fa body) = (6 + length (bfx bk fa) + cfuel body)%nat. Proof. reflexivity. Qed.
 
 Lemma cfuel_leaf lk seg fa ta : cfuel_item (ILeaf lk seg fa ta) = (8 + length (lfx lk fa) + 2 * length ta)%nat. Proof. reflexivity. Qed.
 
+Lemma cfuel_pkg seg k n elems : cfuel_item (IPkg seg k n elems) = (16 + 3 * length elems)%nat. Proof. reflexivity. Qed.
+
 Lemma clen_le_cfuel l : (clen l <= cfuel l)%nat.
-Proof. induction l as [|[d|bk k seg fa body|lk seg fa ta] t IH]; [cbn; lia| | |]; rewrite cfuel_cons; cbn [clen]; [cbn [cfuel_item]|rewrite cfuel_blk|rewrite cfuel_leaf]; lia. Qed.
+Proof. induction l as [|[d|bk k seg fa body|lk seg fa ta|seg k n elems] t IH]; [cbn; lia| | | |]; rewrite cfuel_cons; cbn [clen]; [cbn [cfuel_item]|rewrite cfuel_blk|rewrite cfuel_leaf|rewrite cfuel_pkg]; lia. Qed.
 
 Lemma lay2_cons h tbl b off x t : lay2 h tbl b off (x :: t) = lay2_item h tbl b off x ++ lay2 h tbl (b + N.of_nat (isz x)) (off + lenN (enc_item x)) t.
 Proof. reflexivity. Qed.
 
 Lemma lay2_nodes h tbl : forall l b off x, In x (rnodesl (lay2 h tbl b off l)) -> b <= x < b + N.of_nat (iszs l).
 Proof.
-  induction l as [|d rest IH|bk k seg fa body rest IHb IH|lk seg fa ta rest IH] using items_ind; intros b off x Hx; [contradiction| | |].
+  induction l as [|d rest IH|bk k seg fa body rest IHb IH|lk seg fa ta rest IH|seg k n elems rest IH] using items_ind; intros b off x Hx; [contradiction| | | |].
   - rewrite lay2_cons, rnodesl_app in Hx. rewrite iszs_cons. apply in_app_or in Hx. destruct Hx as [Hx|Hx].
     + cbn [lay2_item rnodesl flat_map rnodes app In] in Hx. cbn [isz]. lia.
     + apply IH in Hx. cbn [isz] in *. lia.
@@ -50,6 +53,11 @@ Proof.
     + cbn [lay2_item] in Hx. unfold rnodesl in Hx. cbn [flat_map] in Hx. rewrite app_nil_r, rnodes_eq in Hx.
       destruct Hx as [<-|Hx]; [lia|]. apply leaf_row_nodes in Hx. rewrite app_length, len_lhd_pays, len_cst_pays in Hx. lia.
     + apply IH in Hx. rewrite isz_leaf in Hx. lia.
+  - rewrite lay2_cons, rnodesl_app in Hx. rewrite iszs_cons, isz_pkg. apply in_app_or in Hx. destruct Hx as [Hx|Hx].
+    + cbn [lay2_item] in Hx. unfold rnodesl in Hx. cbn [flat_map] in Hx. rewrite app_nil_r, rnodes_eq in Hx.
+      destruct Hx as [<-|Hx]; [lia|]. unfold rnodesl in Hx. cbn [flat_map] in Hx. rewrite app_nil_r in Hx. apply in_app_or in Hx.
+      destruct Hx as [Hx|Hx]; [rewrite rnodes_eq in Hx; cbn [rnodesl flat_map In] in Hx; lia|apply pkg_tree_nodes in Hx; lia].
+    + apply IH in Hx. rewrite isz_pkg in Hx. lia.
 Qed.
 
 (** what the pass does to a range of slots *)
@@ -86,9 +94,17 @@ Lemma last_app_two' {A} (l : list A) x y d : last (l ++ [x; y]) d = y.
 Proof. replace (l ++ [x; y]) with ((l ++ [x]) ++ [y]) by (rewrite <- app_assoc; reflexivity). apply last_app_one. Qed.
 
 (** ---- moving a run of siblings below the target ---- *)
+Lemma desc_redirect2 g g2 tg a : (forall v c, v <> tg -> In c (kids g2 v) -> In c (kids g v)) ->
+  forall x, desc g2 a x -> desc g a x \/ desc g a tg.
+Proof.
+  intros Hsub x Hd. induction Hd as [|p c Hd IH Hin]; [left; constructor|].
+  destruct IH as [IH|IH]; [|right; exact IH].
+  destruct (N.eq_dec p tg) as [->|Hne]; [right; exact IH|]. left. eapply desc_step; [exact IH|apply Hsub; assumption].
+Qed.
+
 Lemma attach_go : forall cs f obj tg l1 l2 ao atg s g pl (Q : pres -> pstate -> Prop),
   Rep (p_tree s) g pl -> kids g obj = l1 ++ tg :: cs ++ l2 ->
-  (forall c, In c cs -> kids g c = [] /\ exists ac, pget pl c = Some ac /\ y_op ac <> opFreed) ->
+  (forall c, In c cs -> ~ desc g c tg /\ exists ac, pget pl c = Some ac /\ y_op ac <> opFreed) ->
   pget pl obj = Some ao -> y_op ao <> opFreed -> pget pl tg = Some atg -> y_op atg <> opFreed ->
   (forall t' g', Rep t' g' pl -> length (g_kids g') = length (g_kids g) ->
      (forall y, kids g' y = if y =? tg then kids g tg ++ cs else if y =? obj then l1 ++ tg :: l2 else kids g y) ->
@@ -100,7 +116,7 @@ Proof.
     assert (E : with_tree s (p_tree s) = s) by (destruct s; reflexivity). rewrite <- E. apply (K (p_tree s) g H eq_refl).
     intros y. rewrite app_nil_r. cbn [app] in Hk. destruct (N.eqb_spec y tg) as [->|]; [reflexivity|]. destruct (N.eqb_spec y obj) as [->|]; [exact Hk|reflexivity].
   - pose proof (rep_R _ _ _ H) as HR. cbn [length app hd] in *.
-    destruct (Hcs c (or_introl eq_refl)) as (Hkc & ac & Hac & Hlc).
+    destruct (Hcs c (or_introl eq_refl)) as (Hndc & ac & Hac & Hlc).
     change (S (length cs) + S f)%nat with (S (length cs + S f)). rewrite attachSiblings_go_S.
     assert (En : N.of_nat (S (length cs)) =? 0 = false) by (apply N.eqb_neq; lia). rewrite En. rewrite andb_false_r.
     apply wp_bind. apply wp_ret. rewrite (rep_not_Inv _ _ _ _ _ H Hac).
@@ -136,8 +152,12 @@ Proof.
     { intros q Hq. rewrite Hk1 in Hq. destruct (N.eqb_spec q obj) as [E|Hne].
       - apply Hnotin. rewrite <- app_assoc. exact Hq.
       - apply Hne. eapply (R_parent_unique _ _ HR); eauto. }
+    assert (Hsub1 : forall v c', v <> tg -> In c' (kids g1 v) -> In c' (kids g v)).
+    { intros v c' _ Hc'. rewrite Hk1 in Hc'. destruct (N.eqb_spec v obj) as [->|_]; [|exact Hc'].
+      rewrite Hk. apply in_app_or in Hc'. apply in_or_app. destruct Hc' as [Hc'|Hc']; [left; exact Hc'|right].
+      destruct Hc' as [<-|Hc']; [left; reflexivity|right; right; exact Hc']. }
     assert (Hnd1 : ~ desc g1 c tg).
-    { intros Hd. apply desc_leaf in Hd; [congruence|]. rewrite Hk1. apply N.eqb_neq in Hne_co. rewrite Hne_co. exact Hkc. }
+    { intros Hd. destruct (desc_redirect2 g g1 tg c Hsub1 tg Hd) as [A|A]; exact (Hndc A). }
     apply wp_bind. eapply (wp_append_rep False tg c _ g1 pl); [exact H1|apply glive_set_kids; exact Hlive_t|apply glive_set_kids; exact Hlive_c|exact Hroot1|exact Hnd1|].
     intros t2 H2. rewrite Hk1 in H2. assert (Eto : tg =? obj = false) by (apply N.eqb_neq; exact Hne_to). rewrite Eto in H2.
     set (g2 := set_kids g1 tg (kids g tg ++ [c])) in *.
@@ -147,12 +167,11 @@ Proof.
     assert (Eot : obj =? tg = false) by (apply N.eqb_neq; congruence).
     eapply (IH f obj tg l1 l2 ao atg _ g2 pl Q); [exact H2| | |exact Hao|exact Hlo|exact Hatg|exact Hltg|].
     + rewrite Hk2', Eot, N.eqb_refl. reflexivity.
-    + intros c' Hc'. destruct (Hcs c' (or_intror Hc')) as (Hkc' & Hp'). split; [|exact Hp'].
-      rewrite Hk2'. destruct (N.eqb_spec c' tg) as [E|_].
-      { exfalso. assert (Hnt : ~ In tg (l1 ++ (c :: cs) ++ l2)) by (apply NoDup_mid_notin; cbn [app]; rewrite <- Hk; exact Hnd).
-        apply Hnt. apply in_or_app. right. apply in_or_app. left. right. rewrite <- E. exact Hc'. }
-      destruct (N.eqb_spec c' obj) as [E|_]; [|exact Hkc'].
-      exfalso. subst c'. apply (R_child_neq_parent _ _ HR obj obj); [|reflexivity]. rewrite Hk. apply in_or_app. right. right. right. apply in_or_app. left. exact Hc'.
+    + intros c' Hc'. destruct (Hcs c' (or_intror Hc')) as (Hndc' & Hp'). split; [|exact Hp'].
+      intros Hd. assert (Hsub2 : forall v c0, v <> tg -> In c0 (kids g2 v) -> In c0 (kids g v)).
+      { intros v c0 Hv Hc0. rewrite Hk2' in Hc0. apply N.eqb_neq in Hv. rewrite Hv in Hc0. apply N.eqb_neq in Hv.
+        apply (Hsub1 v c0 Hv). rewrite Hk1. exact Hc0. }
+      destruct (desc_redirect2 g g2 tg c' Hsub2 tg Hd) as [A|A]; exact (Hndc' A).
     + intros t' g' H' Hlen' Hk'. apply (K t' g' H').
       * rewrite Hlen'. unfold g2, g1. rewrite !len_set_kids. reflexivity.
       * intros y. rewrite Hk', !Hk2', N.eqb_refl. destruct (N.eqb_spec y tg); [rewrite <- app_assoc; reflexivity|].
@@ -175,6 +194,92 @@ Proof.
     replace (S (S (length D1 + f)))%nat with (length D1 + S (S f))%nat by lia.
     eapply (IH f obj L (x :: D2)); [exact H|rewrite Hk, <- !app_assoc; reflexivity| |exact K].
     intros d Hd. apply Hall. apply in_or_app. left. exact Hd.
+Qed.
+
+(** ---- connectNamedObjArgs over objects that are not named objects of the table being loaded ---- *)
+Definition conn_ok (g : ghost) (h : N) (y : N) (a : pay) : Prop :=
+  exists op flags af, opInfo (y_info a) = Some (op, flags, af) /\
+    negb (hasFlag flags aml_pOpFlagNamed) || negb (y_th a =? h) || (hd InvalidIndex (kids g y) =? InvalidIndex) || (y_op a =? aml_pOpIntScopeBlock) = true.
+
+Section ConnS.
+Variable g : ghost.
+Variable pl : list pay.
+Variable h : N.
+Variable S : N -> Prop.
+Hypothesis Sclosed : forall y c, S y -> In c (kids g y) -> S c.
+Hypothesis Hall : forall y a, S y -> pget pl y = Some a -> y_op a <> opFreed -> conn_ok g h y a.
+
+Definition CWs (f : nat) : Prop := forall x a s, Rep (p_tree s) g pl -> p_handle s = h -> S x ->
+  pget pl x = Some a -> y_op a <> opFreed -> fwalkb g f x ->
+  wp False (connectNamedObjArgs f x) s (fun r s' => r = ROk /\ s' = s).
+
+Definition CLs (f : nat) : Prop := forall p lr l2 s, Rep (p_tree s) g pl -> p_handle s = h ->
+  kids g p = rev lr ++ l2 -> (forall c, In c lr -> S c) -> floopb g f lr ->
+  wp False (connectNamed_loop f p (hd InvalidIndex lr)) s (fun r s' => r = ROk /\ s' = s).
+
+Lemma conn_step f p lr c l2 a s (Q : pres -> pstate -> Prop) :
+  CWs f -> Rep (p_tree s) g pl -> p_handle s = h -> kids g p = rev lr ++ c :: l2 -> S c -> pget pl c = Some a -> y_op a <> opFreed ->
+  fwalkb g f c ->
+  wp False (connectNamed_loop f p (hd InvalidIndex lr)) s Q ->
+  wp False (connectNamed_loop (Datatypes.S f) p c) s Q.
+Proof.
+  intros IHw H Hh Hk HS Hac Hlc Hfc K. rewrite connectNamed_loop_S. rewrite (rep_not_Inv _ _ _ _ _ H Hac).
+  apply wp_bind. eapply wp_objectAt_rep; [exact H|exact Hac|exact Hlc|].
+  apply wp_bind. eapply (wp_rdf_sib False p (rev lr) c l2); [exact H|exact Hk|]. intros o' Hidx _ _ _ _. rewrite Hidx.
+  apply wp_bind. eapply wp_conseq; [apply (IHw c a s H Hh HS Hac Hlc Hfc)|]. intros r0 s' (-> & ->).
+  change (negb (pres_eqb ROk ROk)) with false. cbv iota zeta.
+  destruct (Hall c a HS Hac Hlc) as (op & flags & af & Hrow & Hcond).
+  apply wp_bind. eapply wp_rdo_rep; [exact H|exact Hac|exact Hlc|]. intros ao Hpay _ Hfirst _.
+  rewrite (pay_info _ _ Hpay). apply wp_bind. eapply wp_info; [exact Hrow|]. cbv beta iota.
+  apply wp_bind, wp_get. rewrite (pay_th _ _ Hpay), (pay_op _ _ Hpay), Hfirst, Hh, Hcond.
+  apply wp_bind. eapply (wp_rdf_sib False p (rev lr) c l2); [exact H|exact Hk|]. intros o _ _ Hprev _ _. rewrite Hprev, last_rev_hd. exact K.
+Qed.
+
+Lemma connS_walk f : CLs f -> CWs (Datatypes.S f).
+Proof.
+  intros IHl x a s H Hh HSx Ha Hl Hf. rewrite connectNamedObjArgs_S.
+  apply wp_bind. eapply wp_objectAt_rep; [exact H|exact Ha|exact Hl|].
+  apply wp_bind. eapply wp_rdf_rep; [exact H|exact Ha|exact Hl|]. intros o _ _ _ Hlast. rewrite Hlast.
+  cbn [fwalkb] in Hf. rewrite <- (rev_involutive (kids g x)) at 1. rewrite last_rev_hd.
+  apply (IHl x (rev (kids g x)) [] s H Hh); [rewrite rev_involutive, app_nil_r; reflexivity| |exact Hf].
+  intros c Hc. apply in_rev in Hc. eapply Sclosed; eauto.
+Qed.
+
+Lemma connS_loop f : CWs f -> CLs f -> CLs (Datatypes.S f).
+Proof.
+  intros IHw IHl p lr l2 s H Hh Hk HS Hf.
+  destruct lr as [|c r]; cbn [hd]; [rewrite connectNamed_loop_S, N.eqb_refl; apply wp_ret; auto|].
+  cbn [rev] in Hk. rewrite <- app_assoc in Hk. cbn [app] in Hk.
+  assert (Hin : In c (kids g p)) by (rewrite Hk; apply in_or_app; right; left; reflexivity).
+  destruct (rep_kid_pay _ _ _ _ _ H Hin) as (ac & Hac & Hlc).
+  cbn [floopb] in Hf. destruct Hf as [Hfc Hfr].
+  eapply (conn_step f p r c l2 ac s); [exact IHw|exact H|exact Hh|exact Hk|apply HS; left; reflexivity|exact Hac|exact Hlc|exact Hfc|].
+  apply (IHl p r (c :: l2) s H Hh); [exact Hk| |exact Hfr]. intros c' Hc'. apply HS. right. exact Hc'.
+Qed.
+
+Lemma connS_all : forall f, CWs f /\ CLs f.
+Proof.
+  induction f as [|f (IHw & IHl)].
+  - split; intro; intros; cbn in *; contradiction.
+  - split; [apply connS_walk; exact IHl|apply connS_loop; assumption].
+Qed.
+End ConnS.
+
+Lemma Desc_kids_in g pl : forall r, Desc g pl r -> forall y c, In y (rnodes r) -> In c (kids g y) -> In c (rnodes r).
+Proof.
+  induction r as [i a ks IH] using rose_ind2. intros Hd y c Hy Hc. destruct (Desc_inv _ _ _ _ _ Hd) as (Hp & Hk & Hks).
+  rewrite rnodes_eq in Hy |- *. destruct Hy as [<-|Hy].
+  - rewrite Hk in Hc. apply in_map_iff in Hc. destruct Hc as (r & <- & Hr). right. unfold rnodesl. apply in_flat_map.
+    exists r. split; [exact Hr|]. destruct r. rewrite rnodes_eq. left. reflexivity.
+  - right. unfold rnodesl in *. apply in_flat_map in Hy. destruct Hy as (r & Hr & Hyr). apply in_flat_map. exists r. split; [exact Hr|].
+    rewrite Forall_forall in IH, Hks. apply (IH r Hr (Hks r Hr) y c Hyr Hc).
+Qed.
+
+Lemma desc_in_tree g pl r : Desc g pl r -> forall y, desc g (ridx r) y -> In y (rnodes r).
+Proof.
+  intros Hd y Hy. induction Hy as [|p c Hy IH Hin].
+  - destruct r. rewrite rnodes_eq. left. reflexivity.
+  - eapply Desc_kids_in; eauto.
 Qed.
 
 Section ConnSpec.
@@ -480,7 +585,7 @@ Qed.
 Lemma CNloop_lobj lk F x b pre cs l2 ps p off seg ax s g pl (Q : pres -> pstate -> Prop) :
   Rep (p_tree s) g pl -> kids g x = pre ++ b :: cs ++ l2 -> kids g b = p :: ps ->
   (forall d, In d (p :: ps) -> kids g d = [] /\ exists a row, pget pl d = Some a /\ y_op a <> opFreed /\ opInfo (y_info a) = Some row) ->
-  (forall c, In c cs -> kids g c = [] /\ exists ac, pget pl c = Some ac /\ y_op ac <> opFreed) ->
+  (forall c, In c cs -> ~ desc g c b /\ exists ac, pget pl c = Some ac /\ y_op ac <> opFreed) ->
   pget pl x = Some ax -> y_op ax <> opFreed -> x <> b -> ~ In b cs ->
   pget pl b = Some (lf_pay h lk off name_zero) -> pget pl p = Some (pth_pay h tbl (off + llo lk)) ->
   p_handle s = h -> slice_bytes s tbl (mkSlice (Some (off + llo lk)) 4) = Ok (seg_bytes seg) ->
@@ -656,7 +761,8 @@ Proof.
   replace (S (S (S (S (S (S (S (nf + (nt + f')))))))))  with (S (S (S (S (S (S (S (length (seqN (b + 1 + 1) nf) + (length (seqN ci nt) + f'))))))))) by (rewrite !seqN_len; reflexivity).
   eapply (CNloop_lobj lk f' x b pre (seqN ci nt) l2 (seqN (b + 1 + 1) nf) (b + 1) off seg ax _ g1 pl1);
     [exact H1|exact Hk1|exact KN1|exact Hhdleaf| |exact Px1|exact Hlx|lia| |exact PN1|exact PP1|exact Hh|exact Hsl|rewrite seqN_len; exact Hnfw|rewrite seqN_len; exact Hlta|].
-  { intros c Hc. destruct (Hcsleaf c Hc) as (A & a0 & row & Pa & La & _). split; [exact A|]. exists a0. auto. }
+  { intros c Hc. destruct (Hcsleaf c Hc) as (A & a0 & row & Pa & La & _). split; [|exists a0; auto].
+    intros Hd. apply desc_leaf in Hd; [|exact A]. apply seqN_in in Hc. unfold ci in Hc. lia. }
   { intros Hin. apply seqN_in in Hin. unfold ci in Hin. lia. }
   intros t3 g3 H3 Hk3. rewrite !seqN_len.
   replace (S (S (S (S (S (S (nf + (nt + f')))))))) with (f - clen (ILeaf lk seg fa ta :: rest))%nat by (cbn [clen]; fold nt; lia).
@@ -666,12 +772,142 @@ Proof.
   intros y. rewrite Hk3. reflexivity.
 Qed.
 
+(** ---- Name(SEG, Package(..){..}) ---- *)
+Definition inert (r : rose) : Prop :=
+  match r with RN i a ks => exists op flags af, opInfo (y_info a) = Some (op, flags, af) /\
+                               (hasFlag flags aml_pOpFlagNamed = false \/ y_op a = aml_pOpIntScopeBlock) end.
+
+Lemma cst_row_inert : forall elems b off, forallb targ_okb elems = true -> Forall (rallr inert) (leaf_row b (cst_pays h tbl off elems)).
+Proof.
+  induction elems as [|d r IH]; intros b off Hok; [constructor|]. cbn [forallb] in Hok. apply andb_prop in Hok. destruct Hok as [Hd Hok].
+  cbn [cst_pays leaf_row]. constructor; [|apply IH; exact Hok]. constructor; [|constructor].
+  destruct d as [d|bs]; cbn [targ_okb targ_pay inert] in *.
+  - unfold cst_okb in Hd. apply andb_prop in Hd. destruct Hd as [Hc _]. unfold cst_pay. cbn [y_info y_op].
+    destruct (is_constb_cases _ Hc) as [E|[E|[E|[E|[E|[E|E]]]]]]; rewrite E; (do 3 eexists; split; [reflexivity|left; reflexivity]).
+  - do 3 eexists. split; [reflexivity|left; reflexivity].
+Qed.
+
+Lemma pkg_tree_inert b off k n elems : forallb targ_okb elems = true -> rallr inert (pkg_tree h tbl b off k n elems).
+Proof.
+  intros Hok. unfold pkg_tree. constructor; [cbn [inert]; do 3 eexists; split; [reflexivity|left; reflexivity]|].
+  constructor; [constructor; [cbn [inert]; do 3 eexists; split; [reflexivity|left; reflexivity]|constructor]|].
+  constructor; [|constructor]. constructor; [cbn [inert]; do 3 eexists; split; [reflexivity|right; reflexivity]|]. apply cst_row_inert. exact Hok.
+Qed.
+
+Lemma inert_conn_ok g i a ks : inert (RN i a ks) -> conn_ok g h i a.
+Proof.
+  intros (op & flags & af & Hrow & Hc). exists op, flags, af. split; [exact Hrow|].
+  destruct Hc as [Hc|Hc]; [rewrite Hc; reflexivity|rewrite Hc, N.eqb_refl; rewrite !orb_true_r; reflexivity].
+Qed.
+
+Lemma post2_pkg g pl g1 pl1 g' x b off seg k n elems rest pre post B' off' :
+  let m := length elems in
+  B' = b + N.of_nat (5 + m) -> (x < b \/ B' + N.of_nat (iszs rest) <= x) ->
+  Post2 g pl g1 pl1 x B' (iszs rest) (pre ++ [b; b + 2]) post (lay2 h tbl B' off' rest) ->
+  pget pl1 b = Some (nam_pay h off name_zero) -> pget pl1 (b + 1) = Some (pth_pay h tbl (off + 1)) -> kids g1 (b + 1) = [] ->
+  Desc g1 pl1 (pkg_tree h tbl (b + 2) (off + 5) k n elems) ->
+  (forall y, kids g' y = if y =? b then [b + 1; b + 2]
+                         else if y =? x then pre ++ b :: (map ridx (lay2 h tbl B' off' rest) ++ post) else kids g1 y) ->
+  Post2 g pl g' (pupd pl1 b (ys_name (seg_nm seg))) x b (5 + m + iszs rest) pre post
+        (lay2_item h tbl b off (IPkg seg k n elems) ++ lay2 h tbl B' off' rest).
+Proof.
+  intros m HB' Hrange [Q1 Q2 Q3 Q4] PN1 PP1 KP1 DP Hk'.
+  set (pl3 := pupd pl1 b (ys_name (seg_nm seg))).
+  assert (Hxb : x <> b) by lia.
+  assert (Hp3 : forall y, y <> b -> pget pl3 y = pget pl1 y) by (intros y Hy; unfold pl3; rewrite pget_pupd; destruct (N.eqb_spec y b); [contradiction|reflexivity]).
+  assert (PN3 : pget pl3 b = Some (nam_pay h off (seg_nm seg))) by (unfold pl3; rewrite pget_pupd, N.eqb_refl, PN1; reflexivity).
+  assert (Hko : forall y, y <> b -> y <> x -> kids g' y = kids g1 y).
+  { intros y Hyb Hyx. rewrite Hk'. apply N.eqb_neq in Hyb. apply N.eqb_neq in Hyx. rewrite Hyb, Hyx. reflexivity. }
+  cbn [lay2_item]. constructor.
+  - rewrite Hk'. apply N.eqb_neq in Hxb. rewrite Hxb, N.eqb_refl. cbn [app map ridx]. reflexivity.
+  - apply Forall_app. split.
+    + constructor; [|constructor]. constructor.
+      * exact PN3.
+      * rewrite Hk', N.eqb_refl. reflexivity.
+      * constructor; [|constructor; [|constructor]].
+        -- constructor; [rewrite Hp3 by lia; exact PP1|rewrite Hko by lia; exact KP1|constructor].
+        -- apply (Desc_frame g1 pl1); [exact DP|]. intros y Hy. apply pkg_tree_nodes in Hy. split; [apply Hko; lia|apply Hp3; lia].
+    + apply (Desc_frame_l g1 pl1); [exact Q2|]. intros y Hy. apply lay2_nodes in Hy.
+      split; [apply Hko; lia|apply Hp3; lia].
+  - intros y Hy Hyx. rewrite Hko by lia. apply Q3; [lia|exact Hyx].
+  - intros y Hy. fold pl3. rewrite Hp3 by lia. apply Q4. lia.
+Qed.
+
+Lemma cspec_pkg seg k n elems rest : CSpec rest -> CSpec (IPkg seg k n elems :: rest).
+Proof.
+  intros IH x pre post b off s g pl f ax R dpre dpost Q H Hk HD Hx Hlx Hrange Hh Htb Hdata Hoff Hok HR Hf K.
+  apply forallb_item_cons in Hok. destruct Hok as [Hd_ok Hok]. cbn [item_okb] in Hd_ok.
+  apply andb_prop in Hd_ok. destruct Hd_ok as [_ Hel_ok].
+  rewrite lay1_cons in Hk, HD |- *. rewrite iszs_cons, isz_pkg in Hrange. rewrite cfuel_cons, cfuel_pkg in Hf.
+  cbn [lay1_item] in Hk, HD |- *. rewrite isz_pkg, enc_pkg_item in Hk, HD |- *.
+  set (m := length elems) in *.
+  set (B' := b + N.of_nat (5 + m)) in *.
+  set (off' := off + lenN (OP_NAME :: seg_bytes seg ++ [OP_PACKAGE] ++ enc_pkglen k (k + lenN ([n] ++ enc_ta elems)) ++ [n] ++ enc_ta elems)) in *.
+  cbn [app map ridx] in Hk |- *. change (ridx (pkg_tree h tbl (b + 2) (off + 5) k n elems)) with (b + 2) in Hk |- *.
+  pose proof (Forall_inv HD) as DN. pose proof (Forall_inv (Forall_inv_tail HD)) as DP. pose proof (Forall_inv_tail (Forall_inv_tail HD)) as HDrest. clear HD.
+  destruct (Desc_inv _ _ _ _ _ DN) as (PN & KN & HDp). pose proof (Forall_inv HDp) as Dpth. clear HDp.
+  destruct (Desc_inv _ _ _ _ _ Dpth) as (PP & KP & _). cbn [map ridx] in KN, KP.
+  rewrite enc_items_cons, enc_pkg_item in Hdata.
+  replace (pre ++ b :: b + 2 :: map ridx (lay1 h tbl B' off' rest)) with ((pre ++ [b; b + 2]) ++ map ridx (lay1 h tbl B' off' rest)) by (rewrite <- app_assoc; reflexivity).
+  eapply (IH x (pre ++ [b; b + 2]) post B' off' s g pl f ax (R + 16 + 3 * m)%nat (dpre ++ OP_NAME :: seg_bytes seg ++ [OP_PACKAGE] ++ enc_pkglen k (k + lenN ([n] ++ enc_ta elems)) ++ [n] ++ enc_ta elems) dpost Q);
+    [exact H|rewrite Hk, <- !app_assoc; reflexivity|exact HDrest|exact Hx|exact Hlx|unfold B'; lia|exact Hh|exact Htb| | |exact Hok|lia|lia|].
+  { rewrite Hdata, <- !app_assoc. reflexivity. }
+  { unfold off'. rewrite Hoff. symmetry. apply lenN_app. }
+  intros t1 g1 pl1 H1 P1. pose proof P1 as [Q1 Q2 Q3 Q4].
+  assert (Hout1 : forall y, b <= y < b + N.of_nat (5 + m) -> (y < B' \/ B' + N.of_nat (iszs rest) <= y) /\ y <> x) by (intros y Hy; unfold B'; lia).
+  assert (KN1 : kids g1 b = [b + 1]) by (rewrite Q3 by (apply Hout1; lia); exact KN).
+  assert (KP1 : kids g1 (b + 1) = []) by (rewrite Q3 by (apply Hout1; lia); exact KP).
+  assert (PN1 : pget pl1 b = Some (nam_pay h off name_zero)) by (rewrite Q4 by (apply Hout1; lia); exact PN).
+  assert (PP1 : pget pl1 (b + 1) = Some (pth_pay h tbl (off + 1))) by (rewrite Q4 by (apply Hout1; lia); exact PP).
+  assert (Px1 : pget pl1 x = Some ax) by (rewrite Q4 by (unfold B'; lia); exact Hx).
+  set (PT := pkg_tree h tbl (b + 2) (off + 5) k n elems) in *.
+  assert (DP1 : Desc g1 pl1 PT).
+  { apply (Desc_frame g pl); [exact DP|]. intros y Hy. apply pkg_tree_nodes in Hy. fold m in Hy. split; [apply Q3; apply Hout1; lia|apply Q4; apply Hout1; lia]. }
+  set (l2 := map ridx (lay2 h tbl B' off' rest) ++ post) in *.
+  assert (Hk1 : kids g1 x = pre ++ b :: [b + 2] ++ l2) by (rewrite Q1, <- !app_assoc; reflexivity).
+  assert (EF : exists F, (f - clen rest = S (S (S (S (S (S (S (S (S (F))))))))))%nat /\ (3 * (3 + m) <= S (S (S (S (S (S (S (1 + F))))))))%nat).
+  { pose proof (clen_le_cfuel rest). exists (f - clen rest - 9)%nat. lia. }
+  destruct EF as (F & EF & HF3). rewrite EF.
+  replace (pre ++ [b; b + 2]) with (pre ++ [b] ++ [b + 2]) by reflexivity. rewrite app_assoc, last_app_one.
+  (* the Package and what is below it is left alone *)
+  assert (HPall : forall y a, In y (rnodes PT) -> pget pl1 y = Some a -> y_op a <> opFreed -> conn_ok g1 h y a).
+  { intros y a Hy Ha _. destruct (rallr_lookup g1 pl1 inert PT DP1 (pkg_tree_inert _ _ _ _ _ Hel_ok) y Hy) as (a' & ks & Dy & Oy).
+    destruct (Desc_inv _ _ _ _ _ Dy) as (Py & _ & _). assert (a' = a) by congruence. subst a'. apply (inert_conn_ok g1 y a ks Oy). }
+  assert (PPk : pget pl1 (b + 2) = Some (pkg_pay h (off + 5))) by (apply (Desc_inv _ _ _ _ _ DP1)).
+  replace (pre ++ [b]) with (rev (rev (pre ++ [b]))) by apply rev_involutive.
+  eapply (conn_step g1 pl1 h (fun y => In y (rnodes PT)) (fun y a Hy Ha Hl => HPall y a Hy Ha Hl) _ x (rev (pre ++ [b])) (b + 2) l2 (pkg_pay h (off + 5)) (with_tree s t1));
+    [|exact H1|exact Hh|rewrite rev_involutive, Hk1, <- !app_assoc; reflexivity|unfold PT, pkg_tree; rewrite rnodes_eq; left; reflexivity|exact PPk|discriminate| |].
+  { refine (proj1 (connS_all g1 pl1 h (fun y => In y (rnodes PT)) _ (fun y a Hy Ha Hl => HPall y a Hy Ha Hl) _)).
+    intros y c Hy Hc. apply (Desc_kids_in g1 pl1 PT DP1 y c Hy Hc). }
+  { change (b + 2) with (ridx PT). apply (fwalkb_size g1 pl1 PT DP1). unfold PT. rewrite pkg_tree_rsize. fold m. exact HF3. }
+  rewrite <- (last_rev_hd (rev (pre ++ [b])) InvalidIndex), rev_involutive, last_app_one.
+  (* the Name object gets its name and the Package *)
+  assert (Hsl : slice_bytes (with_tree s t1) tbl (mkSlice (Some (off + 1)) 4) = Ok (seg_bytes seg)).
+  { replace (off + 1) with (lenN (dpre ++ [OP_NAME])) by (rewrite lenN_app, Hoff; reflexivity).
+    eapply (slice_at _ tbls tbl data (dpre ++ [OP_NAME]) (seg_bytes seg) _); [exact Htb|exact Hnth| |reflexivity].
+    rewrite Hdata. cbn [app]. rewrite <- !app_assoc. reflexivity. }
+  change (S (S (S (S (S (S (S (1 + F)))))))) with (S (S (S (S (S (S (S (length (@nil N) + (length [b + 2] + F))))))))).
+  eapply (CNloop_lobj LName F x b pre [b + 2] l2 [] (b + 1) off seg ax _ g1 pl1);
+    [exact H1|exact Hk1|exact KN1| | |exact Px1|exact Hlx|lia| |exact PN1|exact PP1|exact Hh|exact Hsl|reflexivity|reflexivity|].
+  { intros d [<-|[]]. split; [exact KP1|]. do 2 eexists. split; [exact PP1|split; [discriminate|reflexivity]]. }
+  { intros c [<-|[]]. split; [|exists (pkg_pay h (off + 5)); split; [exact PPk|discriminate]].
+    intros Hd. apply (desc_in_tree g1 pl1 PT DP1) in Hd. unfold PT in Hd. apply pkg_tree_nodes in Hd. lia. }
+  { intros [E|[]]. lia. }
+  intros t3 g3 H3 Hk3. cbn [length Nat.add].
+  match goal with |- wp _ (connectNamed_loop ?F0 _ _) _ _ => replace F0 with (f - clen (IPkg seg k n elems :: rest))%nat by (cbn [clen]; lia) end.
+  apply (K t3 g3 _ H3).
+  rewrite lay2_cons, isz_pkg, enc_pkg_item, iszs_cons, isz_pkg. fold m B' off'.
+  apply (post2_pkg g pl g1 pl1 g3 x b off seg k n elems rest pre post B' off'); [reflexivity|unfold B'; lia|exact P1|exact PN1|exact PP1|exact KP1|exact DP1|].
+  intros y. rewrite Hk3. reflexivity.
+Qed.
+
 Theorem cspec_all : forall its, CSpec its.
 Proof.
-  induction its as [|d rest IH|bk k seg fa body rest IHb IH|lk seg fa ta rest IH] using items_ind.
+  induction its as [|d rest IH|bk k seg fa body rest IHb IH|lk seg fa ta rest IH|seg k n elems rest IH] using items_ind.
   - apply cspec_nil.
   - apply cspec_name. exact IH.
   - apply cspec_blk; assumption.
   - apply cspec_leaf; assumption.
+  - apply cspec_pkg; assumption.
 Qed.
 End ConnSpec.
